@@ -21,8 +21,13 @@ REPO_SRC = os.path.join(REPO, "src")
 if REPO_SRC not in sys.path:
     sys.path.insert(0, REPO_SRC)
 
-EVIDENCE_DIR = os.path.join(VERIF_DIR, "evidence")
-REPLAY_DIR = os.path.join(VERIF_DIR, "replays")
+# evidence / replays normally live in /verif; runs against a scratch tree
+# (seeded-mutant evaluation) redirect them so committed evidence is untouched
+EVIDENCE_DIR = os.environ.get("VERIF_EVIDENCE_DIR") or \
+    os.path.join(VERIF_DIR, "evidence")
+REPLAY_DIR = (os.path.join(os.environ["VERIF_EVIDENCE_DIR"], "replays")
+              if os.environ.get("VERIF_EVIDENCE_DIR")
+              else os.path.join(VERIF_DIR, "replays"))
 KNOWN_FILE = os.path.join(VERIF_DIR, "known_findings.json")
 
 MAX_VIOL_PER_SHARD = 40
